@@ -36,6 +36,8 @@ class VDI(AlignedStream):
         super().__init__(size=self.header.DiskSize)
 
     def _read(self, offset: int, length: int) -> bytes:
+        # The stream buffer may ask for more than what is left of the disk
+        length = min(length, self.size - offset)
         block_idx, block_offset = divmod(offset, self.block_size)
 
         bytes_read = []
